@@ -320,8 +320,22 @@ let io_run_ops file =
   let xc = Buffer.create 256 in
   let n_api = ref 0 and n_api_bad = ref 0 and n_render = ref 0 and n_render_bad = ref 0 in
   let sum b = Printf.sprintf "%d:%x" (List.length b) (fnv b) in
+  (* the domain of the cache theorem, decided by the extracted [Io_flat.evs_ok] on the events of each call, started at the
+     positions and lengths of the three files before the call (Io_cache.checked_step_in_domain) *)
+  let cur_kind = ref "" in
+  let open_prev : Io.st option ref = ref None in
+  let dom_check (prev : Io.st) (evs : Io.ev list) =
+    List.iter (fun f ->
+      let x = Io.get_file prev f in
+      let ok = evs_ok x.Io.fcs f x.Io.fp (n_of_int (List.length x.Io.fb)) evs in
+      feat (Printf.sprintf "cache_domain:%s:%s" !cur_kind (if ok then "in" else "OUT:" ^ io_file_name f)))
+      [Io.FKey; Io.FVal; Io.FHtx] in
   let collect mid (m : Io.mp) =
     let (evs, m') = Io.drain m in
+    (match Hashtbl.find_opt maps mid, !open_prev with
+     | _, Some st -> dom_check st evs; open_prev := None
+     | Some (mp, _, _), None -> dom_check mp.Io.m_st evs
+     | None, None -> ());
     (if !tracing then pending := List.rev_append (List.map io_event evs) !pending);
     (match Hashtbl.find_opt maps mid with Some (_, d, nm) -> Hashtbl.replace maps mid (m', d, nm) | None -> ());
     m' in
@@ -380,6 +394,7 @@ let io_run_ops file =
          incr lineno;
          let t = List.filter (fun s -> s <> "") (String.split_on_char ' ' line) in
          let a i = List.nth t i in
+         cur_kind := a 0;
          let on_map f =
            match Hashtbl.find_opt maps (a 1) with
            | Some (m, _, _) -> let out = f (a 1) m in record_level line out; out
@@ -418,8 +433,10 @@ let io_run_ops file =
                   | Io.Opened m ->
                     Hashtbl.remove disk (dir, nm);
                     Hashtbl.replace maps (a 1) (m, dir, nm);
+                    cur_kind := "reopen"; open_prev := Some s0;
                     ignore (collect (a 1) m); record_level line "ok"; "ok"
                   | Io.RejectedAt _ | Io.FreshFile _ ->
+                    cur_kind := "rejected_open"; dom_check s0 (List.rev s1.Io.s_log);
                     (if !tracing then pending := List.rev_append (List.map io_event (List.rev s1.Io.s_log)) !pending);
                     Hashtbl.replace disk (dir, nm) (Io.clear_log s1);    (* what the model says the rejected open left *)
                     let out = (match o with Io.RejectedAt _ -> incr n_open_rej; "panic:BadSig" | Io.FreshFile f -> "unsupported:fresh:" ^ io_file_name f | _ -> assert false) in
@@ -433,6 +450,7 @@ let io_run_ops file =
               | Ok nb ->
                 of_res (Io.create (parse_kt (a 3)) nb (bk p.p_key) (bk p.p_val) (bk p.p_htx)) (fun m ->
                   Hashtbl.replace maps (a 1) (m, dir, nm);
+                  cur_kind := "create"; open_prev := Some (Io.empty_st (bk p.p_key) (bk p.p_val) (bk p.p_htx));
                   ignore (collect (a 1) m); record_level line "ok"; "ok")
               | Panic tg -> "panic:" ^ tagname tg | _ -> "err")
            | "put" -> on_map (fun mid m -> of_res (Io.put m (unhex (a 2)) (unhex (a 3))) (fun m' -> ignore (collect mid m'); "ok"))
